@@ -40,7 +40,9 @@ VALID_SNIPPETS = [
     'from __future__ import annotations\n', 'from __future__ import division, print_function\nx = 1\n',
     '"""doc"""\nfrom __future__ import generators\nfrom __future__ import with_statement\nimport os\n',
     'from __future__ import (absolute_import, unicode_literals,)\n', 'from __future__ import nested_scopes as ns\n',
+    'import a as b, c\n', 'import numpy as np, os\n', 'import a.b as c, d.e\n', 'import a, b as c, d\n', 'def f():\n    import x as y, z\n    return y, z\n',
     'from . import a\n', 'from .. import a as b\n', 'from .a.b import (c, d as e,)\n', 'from ...a import *\n', 'import a.b.c, d as e, f.g as h\n',
+    'def f(): return f"yield"\n', 'def f():\n    x = f"return"\n    raise E(f"raise")\n', 'def g(): return f"{x} yield"\n', 'def h(): return F\'yield\'\n',
     'def f():\n    return\n    yield\n', 'def f():\n    yield from g()\n    return 1\n', 'def f():\n    x = yield from g()\n', 'def f():\n    await_ = yield\n',
     'class A(B, metaclass=C, **kw):\n    pass\n', 'class A():\n    def f(self): return super().f()\n', '@a.b(c)\n@d\nclass A: pass\n',
     '@a[0]\ndef f(): pass\n', '@(x := y)\ndef f(): pass\n', '@a if b else c\ndef f(): pass\n', '@lambda f: f\ndef g(): pass\n',
@@ -98,7 +100,7 @@ _MUTS = [
     (re.compile(r'\breturn\b'), ['yield', 'return await', 'yield from', 'raise', 'del', 'return *', 'assert', 'global', 'nonlocal']),
     (re.compile(r'\bpass\b'), ['continue', 'break', 'return', 'yield', '...', 'import a.b', 'global x', 'nonlocal x', 'x: int', 'await x',
                                'from __future__ import annotations', 'del x', 'x = yield', 'return 1', 'raise', '__debug__']),
-    (re.compile(r'\bimport (\w+)'), ['import \\1.a', 'import \\1 as b', 'from \\1 import *', 'from . import \\1', 'from .\\1 import (a, b,)']),
+    (re.compile(r'\bimport (\w+)'), ['import \\1.a', 'import \\1 as b', 'import \\1 as b_, c_', 'import x_ as y_, \\1', 'from \\1 import *', 'from . import \\1', 'from .\\1 import (a, b,)']),
     (re.compile(r','), [', *', ', **', ',\n    ', ', /,', ', *,', ',)' if False else ' ,']),
     (re.compile(r'\('), ['(*', '(**', '(\n', '( ', '((', '(x for x in ', '(lambda: ']),
     (re.compile(r':\s*$', re.M), [': pass', ':  # c', ': \\\n']),
